@@ -179,6 +179,7 @@ def run(rep: Report, tier: str) -> None:
 	rule_module_selection(rep, idx)
 	rule_eviction_pattern(rep, idx)
 	rule_content_fingerprint(rep, idx)
+	rule_cache_file_complete(rep, idx)
 	rule_key_sources_state(rep, idx)
 	rep.extra_coverage['effects_reached'] = total_effects
 	rep.extra_coverage['entries'] = [e.qualname for e in entries]
@@ -439,3 +440,53 @@ def rule_content_fingerprint(rep: Report, idx) -> None:
 			r.ok(key, (m.relpath, n.lineno))
 		else:
 			r.skip(key, (m.relpath, n.lineno), f'digest argument `{unparse(arg)[:60]}` is not recognisably everything `<file>.read()` returned')
+
+
+def rule_cache_file_complete(rep: Report, idx, rule_id: str = 'C05/cache-file-exists-only-when-complete') -> None:
+	"""`get` trusts a cache file as soon as it EXISTS (cache_exists -> load_cache, in front of the parser's own error conversion). So the file must not
+	come into existence before its content is there: (1) the value is produced (the factory / instantiate call) before the file is opened for writing —
+	a factory that raises (an unparsable module!) under an open `wb` file leaves a zero-byte file, and every later run answers with the loader's
+	decode error instead of Errors.Syntax; (2) a serialisation that fails half-way removes what it wrote (a handler that unlinks the path and re-raises,
+	or a write to a temporary name followed by a rename)."""
+	cache = idx.mod('rogw/tranp/cache/cache.py')
+	r = rep.rule(rule_id, 'in CachedProxy every open-for-write of the cache path is protected by a handler that removes the file and re-raises (or goes through a temporary name + rename): whatever fails while the file is open — the serialisation, or a factory called there — leaves no file behind', floor=1)
+	cp = cache.cls('CachedProxy')
+	if cp is None:
+		r.skip('CachedProxy', (cache.relpath, 1), 'CachedProxy vanished')
+		return
+	from vlib.flow import parent_map
+	n_open = 0
+	for defs_ in cp.methods.values():
+		for f in defs_:
+			pm_ = parent_map(f.node)
+			for w in walk_no_nested(f.node):
+				if not isinstance(w, ast.With):
+					continue
+				opens = [it.context_expr for it in w.items if isinstance(it.context_expr, ast.Call) and unparse(it.context_expr.func) == 'open']
+				writes = [o for o in opens if any(isinstance(a, ast.Constant) and isinstance(a.value, str) and ('w' in a.value or 'a' in a.value or 'x' in a.value) for a in list(o.args[1:]) + [kw.value for kw in o.keywords if kw.arg == 'mode'])]
+				if not writes:
+					continue
+				n_open += 1
+				key = f'{f.name}:{unparse(writes[0])[:40]}'
+				# (1) no factory call inside the with body
+				inside = [c_ for s_ in w.body for c_ in ast.walk(s_) if isinstance(c_, ast.Call) and isinstance(c_.func, ast.Attribute) and c_.func.attr in ('instantiate', '_factory') and isinstance(c_.func.value, ast.Name) and c_.func.value.id == 'self']
+				# (2) partial file removed on failure, or temp + rename
+				target = writes[0].args[0] if writes[0].args else None
+				protected = False
+				cur = w
+				while id(cur) in pm_:
+					par = pm_[id(cur)]
+					if isinstance(par, ast.Try) and any(cur is s_ for s_ in par.body):
+						for h in par.handlers:
+							broad = h.type is None or unparse(h.type) in ('BaseException', 'Exception')
+							removes = any(isinstance(c_, ast.Call) and unparse(c_.func) in ('os.unlink', 'os.remove') and c_.args and target is not None and unparse(c_.args[0]) == unparse(target) for c_ in ast.walk(h))
+							reraises = any(isinstance(x, ast.Raise) for x in ast.walk(h))
+							if broad and removes and reraises:
+								protected = True
+						if par.finalbody and any(isinstance(c_, ast.Call) and unparse(c_.func) in ('os.unlink', 'os.remove') for s_ in par.finalbody for c_ in ast.walk(s_)):
+							protected = True
+					cur = par
+				renamed = any(isinstance(c_, ast.Call) and unparse(c_.func) in ('os.replace', 'os.rename') and c_.args and target is not None and unparse(c_.args[0]) == unparse(target) for c_ in walk_no_nested(f.node))
+				r.check(protected or renamed, key + ':partial-file-removed', (cache.relpath, w.lineno), (f'`{unparse(inside[0])[:50]}` runs while the cache file is already open for writing, and nothing removes the file when it raises — the parser on an unparsable module leaves an empty cache file, `get` finds it on the next run and answers with the decode error of the loader (Errors.Fatal / a raw JSONDecodeError through the parser) instead of Errors.Syntax; ' if inside else '') + f'`{unparse(writes[0])[:60]}` creates the cache file before its content is written and nothing removes it when the serialisation fails (a RecursionError while dumping a deeply nested tree): the zero-byte file is found by every later run, which fails with a decode error instead of repeating the original outcome — the cache has changed the result', unparse(w)[:120])
+	if n_open == 0:
+		r.skip('CachedProxy', cp.where, 'CachedProxy no longer opens a file for writing')
